@@ -160,6 +160,8 @@ func confuse(s *simcore.Source, doc string) (string, string) {
 	}
 	var nodes []*yaml.Node
 	var paths []string
+	var keys []*yaml.Node // mapping keys (a separate, rarer kind of confusion: keys that are not strings)
+	var keyPaths []string
 	var walk func(n *yaml.Node, path string)
 	walk = func(n *yaml.Node, path string) {
 		switch n.Kind {
@@ -171,6 +173,7 @@ func confuse(s *simcore.Source, doc string) (string, string) {
 			for i := 0; i+1 < len(n.Content); i += 2 {
 				p := path + "." + n.Content[i].Value
 				nodes, paths = append(nodes, n.Content[i+1]), append(paths, p)
+				keys, keyPaths = append(keys, n.Content[i]), append(keyPaths, p)
 				walk(n.Content[i+1], p)
 			}
 		case yaml.SequenceNode:
@@ -184,6 +187,19 @@ func confuse(s *simcore.Source, doc string) (string, string) {
 	walk(&root, "")
 	if len(nodes) == 0 {
 		return doc, "no-nodes"
+	}
+	if len(keys) > 0 && s.Draw(6, "confuse-a-key") == 5 {
+		i := s.Draw(len(keys), "confuse-key-node")
+		repl := []string{"404", "true", "~", "1.5", "[a]"}
+		k := s.Draw(len(repl), "confuse-key-value")
+		var nn yaml.Node
+		yaml.Unmarshal([]byte(repl[k]), &nn)
+		*keys[i] = *nn.Content[0]
+		out, err := yaml.Marshal(&root)
+		if err != nil {
+			return doc, "marshal-failed"
+		}
+		return string(out), fmt.Sprintf("key of %s := %s", keyPaths[i], repl[k])
 	}
 	i := s.Draw(len(nodes), "confuse-node")
 	repl := []string{"123", `"x"`, "true", "null", "[]", "{}", `[1, "a", null]`, `{"a": 1}`, `""`, "-1.5e300", `[[]]`, `{"if": 1, "config": "x"}`}
